@@ -3,10 +3,11 @@ import re
 
 from . import core
 
-THEOREMS = []
+THEOREMS = ["Goag.Alias.exhausted_is_cycle", "Goag.Alias.accepted_resolves", "Goag.Alias.walk_found_mono", "Goag.Alias.pigeon"]
 TRUSTED = [
     "Lean 4.33.0 kernel; axioms propext, Classical.choice, Quot.sound only (audited by #print axioms)",
     "kin-openapi loader decides which documents are in the property's domain (documents it rejects or crashes on are counted, not judged)",
+    "the hand-written model Goag.Alias (bounded alias walk and the two checks of NewMapRefSelfSource), tied on every run: all 64 functional graphs on three names and random graphs on up to five names, for components.responses / schemas / parameters / requestBodies / headers, generator verdict vs model verdict",
     "recover() around goag.Generator.GenerateFile in-process and the exit status / stderr of the built CLI as the observation",
 ]
 
@@ -35,6 +36,49 @@ def check(ctx):
         outs = core.run_sharded(ctx, vh, "mutate")
         rows = core.read_tsv(outs, "impl.tsv")
         meta = core.merge_meta(outs)
+    alias = {"cases": 0, "agree": 0, "by_kind": {}}
+    if vh:
+        # tie of Goag.Alias to NewMapRefSelfSource and friends
+        aouts = core.run_sharded(ctx, vh, "aliasf")
+        acases = core.read_lines(aouts, "cases.tsv")
+        amodel = {}
+        for l in (core.run_driver(acases, ctx, "alias") if acases else []):
+            pp = l.split("\t", 1)
+            if len(pp) == 2:
+                amodel[pp[0]] = pp[1]
+        for r in core.read_tsv(aouts, "impl.tsv"):
+            if len(r) < 6:
+                continue
+            cid, kind, enc, cls, detail, doc = r[:6]
+            if cls == "load-error":
+                continue
+            alias["cases"] += 1
+            m = amodel.get(cid)
+            alias["by_kind"][kind + ":" + cls] = alias["by_kind"].get(kind + ":" + cls, 0) + 1
+            impl_ok = cls == "ok"
+            if cls == "panic":
+                continue  # reported by the fault enumeration below as well; counted here
+            if m is None:
+                ctx.broken.append({"kind": "correspondence", "detail": "no model answer for alias case " + cid})
+                break
+            if (m == "ok") == impl_ok and (cls in ("ok", "error") or cls == m):
+                alias["agree"] += 1
+                continue
+            spec = bytes.fromhex(doc).decode("utf-8", "replace")
+            entries = bytes.fromhex(enc).decode()
+            if m != "ok" and impl_ok:
+                ctx.violations.append({"kind": "a component map with an alias chain that never reaches a definition was accepted (later unbounded walks cannot terminate)",
+                                       "components": kind, "entries": entries, "model": m, "impl": cls, "spec": spec})
+            elif m == "ok" and not impl_ok:
+                ctx.violations.append({"kind": "a component map whose alias chains all end at definitions was refused",
+                                       "components": kind, "entries": entries, "model": m, "impl": cls + ": " + bytes.fromhex(detail).decode("utf-8", "replace"), "spec": spec})
+            else:
+                ctx.broken.append({"kind": "correspondence", "detail": "alias model says %s, generator says %s on %s %s" % (m, cls, kind, entries)})
+        for r in core.read_tsv(aouts, "impl.tsv"):
+            if len(r) >= 6 and r[3] == "panic":
+                ctx.violations.append({"kind": "the generator panicked on a document the loader accepted", "components": r[1], "entries": bytes.fromhex(r[2]).decode(),
+                                       "panic": bytes.fromhex(r[4]).decode("utf-8", "replace")[:800], "spec": bytes.fromhex(r[5]).decode("utf-8", "replace")})
+                break
     outcomes, kinds = {}, {}
     samples = []
     cli = {"runs": 0, "exit0_on_ok": 0, "exit1_on_error": 0}
@@ -88,7 +132,7 @@ def check(ctx):
         "evaluations": len(rows), "distinct_nontrivial": len(distinct),
         "rule": "base documents = 42 fixture specs + 3 map-fat specs + 6 generated routing/parameter/security specs; faults = for every JSON position: delete the key / null the value / swap the JSON type (quick: 12 seeded positions per base, thorough: all), plus targeted faults (content parameter, dangling $ref, unknown type/format, array without items, non-string server default/enum, self-referencing schema, alias cycle, unknown security scheme, media type without schema); non-trivial = the loader accepted the mutant (generator outcome ok or error); distinct by (base, fault)",
         "samples": samples, "outcomes": outcomes, "fault_kinds": kinds, "cli": cli, "panic_sites": sorted(seen_sites),
-        "harness_stats": meta.get("stats", {}),
+        "harness_stats": meta.get("stats", {}), "alias_tie": alias,
         "explanation": "single structural faults enumerated over corpus documents; the generator must return ok or a located error for every mutant the loader accepts, and the CLI must exit non-zero exactly on error",
     })
-    return core.finish(ctx, "other", cov, ["documents the loader rejects (or crashes on) are outside the statement"])
+    return core.finish(ctx, "fault_enumeration", cov, ["documents the loader rejects (or crashes on) are outside the statement"])
